@@ -31,6 +31,7 @@ func main() {
 	caps := flag.Bool("caps", false, "debug: print the capability matrix")
 	bank := flag.Bool("bank", false, "debug: print bank call sites")
 	explain := flag.String("explain", "", "print a violation file")
+	dumpVocab := flag.Bool("dump-vocab", false, "print the names of all named module functions (to regenerate vocabulary.txt)")
 	variant := flag.String("variant", "", "self-test: analyse the named reference variant (in-memory overlay, shadow output)")
 	selftest := flag.String("selftest", "auto", "self-test with reference variants: on|off|auto (auto = thorough tier only)")
 	flag.Parse()
@@ -98,7 +99,22 @@ func main() {
 		fmt.Println("UNDECIDED load:", err)
 		os.Exit(2)
 	}
+	verr := p.LoadVocab(*verif + "/vocabulary.txt")
+	if verr != nil && *verif != "/verif" {
+		verr = p.LoadVocab("/verif/vocabulary.txt") // scratch evidence directories share the committed vocabulary
+	}
+	if err := verr; err != nil && !*dumpVocab {
+		fmt.Println("note: no vocabulary loaded (", err, "): helper functions are not interpreted through their bodies")
+	}
 	p.BuildGraph()
+	if *dumpVocab {
+		for _, f := range p.Funcs {
+			if f.Parent() == nil && f.Synthetic == "" {
+				fmt.Println(p.Name(f))
+			}
+		}
+		return
+	}
 	roots, rerr := p.Roots()
 	mods := term.BuildMods(p)
 	et := eff.Build(p, mods)
